@@ -226,7 +226,40 @@ class RoleFlow:
         for st in stmts:
             self.stmt(st)
 
+    def dict_literal(self, name, d):
+        """name = {'k': v, ...}: every constant key as a keyed store; a nested dictionary (literal or comprehension) as a container of its
+        own, linked under the key"""
+        for k, v in zip(d.keys, d.values):
+            if not (isinstance(k, ast.Constant)):
+                if k is not None:
+                    self.put(self.elem, name, self.ev(v))
+                    self.put(self.keys, name, S(flat(self.ev(k))))
+                continue
+            if isinstance(v, (ast.DictComp, ast.Dict)):
+                syn = '%s[%r]' % (name, k.value)
+                if isinstance(v, ast.DictComp):
+                    for g in v.generators:
+                        self.bind_iter(g.target, g.iter)
+                    self.put(self.elem, syn, self.ev(v.value))
+                    self.put(self.keys, syn, S(flat(self.ev(v.key))))
+                else:
+                    self.dict_literal(syn, v)
+                self.links.setdefault((name, k.value), set()).add(syn)
+            else:
+                self.put(self.keyed, (name, k.value), self.ev(v))
+                self.put(self.elem, name, self.ev(v))
+
     def stmt(self, st):
+        if isinstance(st, ast.Assign) and isinstance(st.value, ast.Dict) and len(st.targets) == 1 and isinstance(st.targets[0], ast.Name):
+            self.dict_literal(st.targets[0].id, st.value)
+            return
+        if isinstance(st, ast.Assign) and isinstance(st.value, ast.DictComp) and len(st.targets) == 1 and isinstance(st.targets[0], ast.Name):
+            v = st.value
+            for g in v.generators:
+                self.bind_iter(g.target, g.iter)
+            self.put(self.elem, st.targets[0].id, self.ev(v.value))
+            self.put(self.keys, st.targets[0].id, S(flat(self.ev(v.key))))
+            return
         if isinstance(st, ast.Assign):
             v = self.ev(st.value)
             # a container bound to another name shares its elements
